@@ -26,8 +26,9 @@ def pose(kind, t, r=(), shift=0, negq=False):
     of the constructors), so that a dependence on the argument form shows."""
     _calls[0] += 1
     form = _calls[0] % 6
-    if all(float(x).is_integer() for x in t) and form in (0, 2, 4):
-        tt = [int(x) for x in t] if form == 0 else (np.array([int(x) for x in t], dtype=np.int64) if form == 2 else tuple(float(x) for x in t))
+    if all(float(x).is_integer() for x in t) and form in (0, 1, 2, 4) and all(abs(x) < 2 ** 24 for x in t):
+        tt = ([int(x) for x in t] if form == 0 else np.array([float(x) for x in t], dtype=np.float32) if form == 1
+              else np.array([int(x) for x in t], dtype=np.int64) if form == 2 else tuple(float(x) for x in t))
     else:
         tt = [float(x) for x in t]
     if kind == 'R2':
